@@ -8,6 +8,7 @@ Counter f_preempt("fault.sched.preempt");
 Counter f_stall("fault.sched.stall");
 Counter f_clockjump("fault.clock.jump");
 Counter f_fork("fault.process.fork");
+Counter p_flock("probe.statement_inside_flockfile_bracket");
 Counter p_fork_handlers("probe.fork_handlers_run");
 
 // Fork handlers the code under test registers (pthread_atfork).  The simulator does not really
@@ -177,6 +178,9 @@ public:
                            (rng.chance(1, 6) ? FIRST_MT + static_cast<int>(rng.below(static_cast<uint64_t>(nlog - FIRST_MT))) :
                                                static_cast<int>(rng.below(FIRST_MT)));
         p.knobs.emplace_back("min", MIN);
+#ifdef LOGSIM_ATOMICS
+        p.knobs.emplace_back("atomics", 1);
+#endif
         p.knobs.emplace_back("logger", logger);
         int nthreads = c09 ? rng.range(2, 4) : rng.range(1, 4);
         bool many = c09 && rng.chance(1, 600); // a crowd: more threads than any small counter can hold
@@ -191,6 +195,10 @@ public:
         p.knobs.emplace_back("pct_d", rng.range(0, 3));
         p.knobs.emplace_back("sched_seed", static_cast<int64_t>(rng.next() >> 16));
         p.knobs.emplace_back("alloc_yield", rng.chance(1, 3));
+#ifdef LOGSIM_ATOMICS
+        p.knobs.emplace_back("atomic_stall_at", rng.chance(2, 3) ? static_cast<int64_t>(rng.below(rng.chance(1, 2) ? 60 : 600)) : -1);
+        p.knobs.emplace_back("atomic_stall_len", static_cast<int64_t>(rng.chance(1, 2) ? rng.range(5, 80) : rng.range(80, 3000)));
+#endif
         p.knobs.emplace_back("lock_timeout8", rng.chance(1, 2) ? 0 : rng.range(1, 4));
         p.knobs.emplace_back("eintr8", rng.chance(1, 2) ? 0 : rng.range(1, 3));
         // stream knobs
@@ -205,6 +213,7 @@ public:
         // initial thresholds
         bool flips = rng.chance(2, 3);
         bool forks = rng.chance(1, 4);
+        bool flocks = rng.chance(1, 4);
         for (int n = 0; n < 3; n++)
             p.knobs.emplace_back(n == 0 ? "th0" : n == 1 ? "th1" : "th2", static_cast<int64_t>(rng.below(6)));
         // item mix (swarm)
@@ -286,6 +295,8 @@ public:
                     op.a[1] = sev;
                     op.a[2] = tg;
                     op.a[3] = (rng.chance(1, 12) ? 1 : 0) + (rng.chance(1, 6) ? 2 : 0);
+                    if (flocks && rng.chance(1, 3))
+                        op.a[3] += rng.chance(1, 2) ? 4 : 8;
                     op.s = gen_items();
                     prog[static_cast<size_t>(t)].push_back(op);
                 }
@@ -546,6 +557,9 @@ public:
         if (nthreads > 8)
             p_crowd++;
         sch.alloc_yield = plan.knob("alloc_yield", 0) != 0;
+        sch.atomic_stall_at = plan.knob("atomic_stall_at", -1);
+        sch.atomic_stall_len = plan.knob("atomic_stall_len", 0);
+        sch.atomic_ops = 0;
         sch.timeout_num = static_cast<unsigned>(plan.knob("lock_timeout8", 0) % 8);
         sch.timeout_state = sseed ^ 0x71AE;
         sch.eintr_num = static_cast<unsigned>(plan.knob("eintr8", 0) % 8);
@@ -616,6 +630,14 @@ public:
                         begin_stmt(si);
                         sch.t[t].holds_interest = true;
                         PutCtx pc{ si, s.noid ? std::string() : stmt_id(s.thread, si) };
+                        // the application brackets a multi-part report with the C stream's own lock
+                        // and logs inside the bracket
+                        FILE* bracket = (op.a[3] & 4) ? stdout : (op.a[3] & 8) ? stderr : nullptr;
+                        if (bracket)
+                        {
+                            p_flock++;
+                            flockfile(bracket);
+                        }
                         if (op.a[3] & 1)
                         {
                             // a complete statement issued from a destructor while another exception
@@ -671,6 +693,8 @@ public:
                                 pc.abort();
                             }
                         }
+                        if (bracket)
+                            funlockfile(bracket);
                         end_stmt(si);
                         tc.cur_stmt = -1;
                         sch.t[t].holds_interest = slot[0] || slot[1];
@@ -865,6 +889,49 @@ public:
             if (g_static_init_deliveries && LOGSIM_MIN <= 4)
                 return flag("C05/spurious", "static-initialisation stateful-user-filter", -1,
                             std::to_string(g_static_init_deliveries) + " statement(s) issued during static initialisation were delivered although the logger's filter rejects them");
+        }
+        if (cfg.prop == "C09" && mt)
+        {
+            // End-to-end clause, judged against the statements themselves rather than against what
+            // reached the sink: every statement that was emitted once must be found exactly once on
+            // each device its sink writes to, recognisable by the identification it streamed first.
+            // (Two statements that assemble their text in one shared buffer interleave their bytes
+            // before any sink is involved; the clauses further down take the formatter's output as
+            // given and could not see that.)
+            std::string sk = std::string("sink=") + SINKNAME[le.sink];
+            struct
+            {
+                RacyBuf* b;
+                bool used;
+                const char* nm;
+            } devs[2] = { { &g_out, le.sink == SK_STDOUT_MT || le.sink == SK_SEQ_MT, "stdout" },
+                          { &g_err, le.sink == SK_STDERR_MT || le.sink == SK_SEQ_MT, "stderr" } };
+            for (auto& d : devs)
+            {
+                if (!d.used || d.b->raced || d.b->failed || d.b->fail_at != static_cast<size_t>(-1))
+                    continue;
+                std::vector<DevRec> recs;
+                std::string content = d.b->contents_with_remainder();
+                if (!parse_device(content, recs))
+                    break; // reported by the device clause below
+                for (size_t si = 0; si < g.stmts.size(); si++)
+                {
+                    const Stmt& s = g.stmts[si];
+                    if (!s.begun || !s.ended || s.noid || s.threw || s.fmts.size() != 1)
+                        continue;
+                    std::string id = stmt_id(s.thread, static_cast<int>(si));
+                    int n = 0;
+                    for (auto& r : recs)
+                        if (r.msg.compare(0, id.size(), id) == 0)
+                            ++n;
+                    if (n == 0)
+                        return flag("C09/lost", sk + " dev=" + d.nm + " end-to-end", s.op,
+                                    "statement " + id + " was emitted once but no record on the device begins with its identification");
+                    if (n > 1)
+                        return flag("C09/duplicate", sk + " dev=" + d.nm + " end-to-end", s.op,
+                                    "statement " + id + " was emitted once but " + std::to_string(n) + " records on the device begin with its identification");
+                }
+            }
         }
         if (g.unavailable_item)
             return flag("C10/ill-formed", std::string("item=") + (g.unavailable_item == 'f' ? "callable-returning-const-char*" : g.unavailable_item == 'g' ? "std::function" : "function-object-or-lambda"),
@@ -1233,6 +1300,31 @@ extern "C"
             t_in_guard_wrap = false;
         }
     }
+    // the C streams' own locks (recursive), taken by the workload around some statements
+    void __real_flockfile(FILE*);
+    void __real_funlockfile(FILE*);
+    int __real_ftrylockfile(FILE*);
+    void __wrap_flockfile(FILE* f)
+    {
+        Scheduler& s = Scheduler::get();
+        if (!s.in_sim())
+            return __real_flockfile(f);
+        s.lock(f, true);
+    }
+    void __wrap_funlockfile(FILE* f)
+    {
+        Scheduler& s = Scheduler::get();
+        if (!s.in_sim())
+            return __real_funlockfile(f);
+        s.unlock(f);
+    }
+    int __wrap_ftrylockfile(FILE* f)
+    {
+        Scheduler& s = Scheduler::get();
+        if (!s.in_sim())
+            return __real_ftrylockfile(f);
+        return s.trylock(f, true) ? -1 : 0;
+    }
     int __wrap_pthread_mutex_lock(pthread_mutex_t* m)
     {
         Scheduler& s = Scheduler::get();
@@ -1463,6 +1555,51 @@ extern "C"
             return lsim::real_sem_post(sm);
         return s.sem_up(sm, sem_initial(sm));
     }
+}
+
+// "atomics" build variant: every atomic operation compiled into this binary calls this first
+// (atomics_rt.cpp).  Only code running inside a fault window - the code under test and what it
+// calls - is preempted; a thread that keeps doing atomic operations without anybody else getting
+// to run in between (a spin loop) is made to step aside, as sched_yield() would.
+Counter c_atomic_yields("sched.atomic_yield_points");
+Counter f_atomic_stall("fault.sched.stall_at_atomic");
+Counter p_spin_forced("probe.spinning_thread_preempted");
+extern "C" void lsim_atomic_yield(void)
+{
+    static thread_local bool inside = false;
+    static thread_local uint64_t last_switches = 0;
+    static thread_local int streak = 0;
+    if (inside || !fctl().window)
+        return;
+    inside = true;
+    Scheduler& s = Scheduler::get();
+    if (s.in_sim())
+    {
+        NoFault nf;
+        c_atomic_yields++;
+        if (static_cast<int64_t>(s.atomic_ops++) == s.atomic_stall_at)
+        {
+            // descheduled right before this operation: everybody else runs for a while
+            f_atomic_stall++;
+            uint64_t start = s.steps;
+            while (s.steps - start < static_cast<uint64_t>(s.atomic_stall_len) && s.others_runnable(Scheduler::self_id()))
+                s.spin_yield();
+        }
+        if (s.switches == last_switches)
+            ++streak;
+        else
+            streak = 0;
+        if (streak >= 48)
+        {
+            streak = 0;
+            p_spin_forced++;
+            s.spin_yield();
+        }
+        else
+            s.yield(YK_ATOMIC);
+        last_switches = s.switches;
+    }
+    inside = false;
 }
 
 static void alloc_yield_hook()
